@@ -431,7 +431,8 @@ func (jenny RawTypes) disjunctionFromJSON(context languages.Context, typeDef ast
 			continue
 		}
 
-		objectRef := disjunction.DiscriminatorMapping[discriminator]
+		// the mapping holds the names of the objects: classes are named after them
+		objectRef := formatObjectName(disjunction.DiscriminatorMapping[discriminator])
 		decodingMap += fmt.Sprintf(`"%s": %s, `, discriminator, objectRef)
 		branchTypes = append(branchTypes, fmt.Sprintf("%s.Type[%s]", typingPkg, objectRef))
 	}
@@ -445,7 +446,7 @@ func (jenny RawTypes) disjunctionFromJSON(context languages.Context, typeDef ast
 	decodingCall := fmt.Sprintf(`%[3]s[%[2]s["%[1]s"]].from_json(%[2]s)`, disjunction.Discriminator, inputVar, decodingMapName)
 
 	if defaultBranchType, ok := disjunction.DiscriminatorMapping[ast.DiscriminatorCatchAll]; ok {
-		defaultBranch = fmt.Sprintf(`, %s`, defaultBranchType)
+		defaultBranch = fmt.Sprintf(`, %s`, formatObjectName(defaultBranchType))
 
 		decodingCall = fmt.Sprintf(`%[4]s.get(%[3]s["%[1]s"]%[2]s).from_json(%[3]s)`, disjunction.Discriminator, defaultBranch, inputVar, decodingMapName)
 	}
